@@ -286,7 +286,11 @@ impl Display for CreateTable {
         }) = &self.hive_formats
         {
             match row_format {
-                Some(HiveRowFormat::SERDE { class }) => write!(f, " ROW FORMAT SERDE '{class}'")?,
+                Some(HiveRowFormat::SERDE { class }) => write!(
+                    f,
+                    " ROW FORMAT SERDE '{}'",
+                    escape_single_quote_string(class)
+                )?,
                 Some(HiveRowFormat::DELIMITED { delimiters }) => {
                     write!(f, " ROW FORMAT DELIMITED")?;
                     if !delimiters.is_empty() {
